@@ -518,6 +518,21 @@ def check_valid_inst(axioms, pc, claim, inst_terms=(), defined=(), timeout_ms=No
     facts = []
     for f in list(pc) + hyps:
         facts.extend(split_conj(f))
+    # stage 0: equality of real-valued terms modulo the commutative-ring / field identities that need no search
+    if z3.is_eq(goal) and goal.arg(0).sort() == z3.RealSort():
+        from . import acnorm
+        gfacts = [f for f in facts if not z3.is_quantifier(f)]
+
+        def nonzero(t):
+            r, _s, _dt = _solve(gfacts, t != 0, 3000, False)
+            return r == z3.unsat
+        try:
+            if acnorm.prove_equal(goal.arg(0), goal.arg(1), nonzero):
+                dt = time.time() - t0
+                STATS["by_backend"]["ac-normalisation"] = STATS["by_backend"].get("ac-normalisation", 0) + 1
+                return "proved", "ac-normalisation(+z3 divisor side conditions)", dt, None
+        except z3.Z3Exception:
+            pass
     ground = [f for f in facts if not z3.is_quantifier(f)]
     quants = [f for f in facts if z3.is_quantifier(f)]
     terms = list(sks)
